@@ -1291,35 +1291,58 @@ impl<'bump> String<'bump> {
     where
         F: FnMut(char) -> bool,
     {
-        let len = self.len();
-        let mut del_bytes = 0;
-        let mut idx = 0;
+        // If `f` panics, the bytes between the compacted prefix and `idx` are
+        // stale, possibly partial, characters: cut the string down to the
+        // prefix that has been processed so that it stays valid UTF-8.
+        struct SetLenOnDrop<'a, 'bump> {
+            s: &'a mut String<'bump>,
+            idx: usize,
+            del_bytes: usize,
+        }
 
-        while idx < len {
-            let ch = unsafe { self.get_unchecked(idx..len).chars().next().unwrap() };
+        impl<'a, 'bump> Drop for SetLenOnDrop<'a, 'bump> {
+            fn drop(&mut self) {
+                let new_len = self.idx - self.del_bytes;
+                debug_assert!(new_len <= self.s.len());
+                unsafe { self.s.vec.set_len(new_len) };
+            }
+        }
+
+        let len = self.len();
+        let mut guard = SetLenOnDrop {
+            s: self,
+            idx: 0,
+            del_bytes: 0,
+        };
+
+        while guard.idx < len {
+            let ch = unsafe {
+                guard
+                    .s
+                    .get_unchecked(guard.idx..len)
+                    .chars()
+                    .next()
+                    .unwrap()
+            };
             let ch_len = ch.len_utf8();
 
             if !f(ch) {
-                del_bytes += ch_len;
-            } else if del_bytes > 0 {
+                guard.del_bytes += ch_len;
+            } else if guard.del_bytes > 0 {
                 unsafe {
                     ptr::copy(
-                        self.vec.as_ptr().add(idx),
-                        self.vec.as_mut_ptr().add(idx - del_bytes),
+                        guard.s.vec.as_ptr().add(guard.idx),
+                        guard.s.vec.as_mut_ptr().add(guard.idx - guard.del_bytes),
                         ch_len,
                     );
                 }
             }
 
             // Point idx to the next char
-            idx += ch_len;
+            guard.idx += ch_len;
         }
 
-        if del_bytes > 0 {
-            unsafe {
-                self.vec.set_len(len - del_bytes);
-            }
-        }
+        drop(guard);
     }
 
     /// Inserts a character into this `String` at a byte position.
